@@ -10,9 +10,9 @@
 (*                                                                                                *)
 (* Refines:  every step's verdict (Editing!Judge on the impl-shaped step) has its violations in   *)
 (*           Allowed when the behaviour runs "as the code is" (dev = DevAsIs; Allowed lists       *)
-(*           exactly the signatures of the known findings: none since the five C11 fix: commits)  *)
-(*           and in FormerFindings when the repaired defects are seeded back (dev = DevSeeded).   *)
-(*           Both kinds of behaviour are explored in one run (Devs).                              *)
+(*           exactly the signatures of the known findings), in Allowed + FormerFindings when the  *)
+(*           five repaired defects are seeded back (dev = DevSeeded), and has none when every     *)
+(*           confirmed deviation is repaired (dev = DevRepaired).  All are explored in one run.   *)
 (* StartOk:  the starting documents are sound.                                                    *)
 (* Finish prints a deterministic sample (EmitMod / C11_PICK) of the complete behaviours as JSON    *)
 (* lines for replay into lopdf; EmitViolations prints a sample (EmitModV) of the behaviours whose   *)
@@ -44,8 +44,11 @@ Mid == 10 PgB == 11  CB == 12  PgC == 13 CC == 14  Info == 15  Img == 16  Mask =
 
 \* tree: "A" root->[A] | "AB" root->[A,B] | "AmB" root->[A, mid->[B]] | "mABC" root->[mid->[A,B], C]
 \* cont: "ref" | "arr1" | "arr2" | "dup" | "refarr" | "missing"        (page A; other pages: "ref")
+\*       | "shared" (pages A and B name the SAME content stream) | "undec" (A's stream does not decode)
 \* res:  "none" | "root" | "rootref" | "rootcat" (inline on the root, its XObject category behind a reference)
 \*       | "page" | "pageref" | "both"
+\*       | "rootx" (the root's XObject category already has the name X<next object number>)
+\*       | "shared" (pages A and B name the SAME Resources object)
 \* ann:  0 | 1 | 2  annotation references on page A;   img: image + mask streams under the catalog
 \* bm:   number of pending bookmarks (on page A)
 St(tree, cont, res, ann, img, bm) == [tree |-> tree, cont |-> cont, res |-> res, ann |-> ann, img |-> img, bm |-> bm]
@@ -56,17 +59,31 @@ StartDoc(s) ==
     LET hasB == s.tree # "A"
         hasC == s.tree = "mABC"
         hasMid == s.tree \in {"AmB", "mABC"}
+        ids == {Cat, Root, PgA, Info}
+               \cup (IF s.cont # "missing" THEN {C1} ELSE {})
+               \cup (IF s.cont = "arr2" THEN {C2} ELSE {})
+               \cup (IF s.cont = "refarr" THEN {CArr} ELSE {})
+               \cup (IF s.res # "none" THEN {Font} ELSE {})
+               \cup (IF s.res \in {"rootref", "pageref", "rootcat", "shared"} THEN {ResObj} ELSE {})
+               \cup (IF s.ann > 0 THEN {Annot} ELSE {})
+               \cup (IF hasMid THEN {Mid} ELSE {})
+               \cup (IF hasB THEN {PgB} \cup (IF s.cont = "shared" THEN {} ELSE {CB}) ELSE {})
+               \cup (IF hasC THEN {PgC, CC} ELSE {})
+               \cup (IF s.img THEN {Img, Mask} ELSE {})
         parentOf(p) == IF s.tree = "AmB" /\ p = PgB THEN Mid
                        ELSE IF s.tree = "mABC" /\ p \in {PgA, PgB} THEN Mid ELSE Root
         rootRes == CASE s.res \in {"root", "both"} -> ("Resources" :> FontRes("F1"))
                      [] s.res = "rootref" -> ("Resources" :> Ref(ResObj))
                      [] s.res = "rootcat" -> ("Resources" :> DictO([Font |-> DictO(("F1" :> Ref(Font))), XObject |-> Ref(ResObj)]))
+                     [] s.res = "rootx" -> ("Resources" :> DictO([Font |-> DictO(("F1" :> Ref(Font))),
+                                                                   XObject |-> DictO((XName(MaxOf(ids) + 1).s :> Ref(Font)))]))
                      [] OTHER -> <<>>
         pageRes == CASE s.res = "page" -> ("Resources" :> FontRes("F1"))
                      [] s.res = "both" -> ("Resources" :> FontRes("F2"))
-                     [] s.res = "pageref" -> ("Resources" :> Ref(ResObj))
+                     [] s.res \in {"pageref", "shared"} -> ("Resources" :> Ref(ResObj))
                      [] OTHER -> <<>>
-        contA == CASE s.cont = "ref" -> ("Contents" :> Ref(C1))
+        pageResB == IF s.res = "shared" THEN ("Resources" :> Ref(ResObj)) ELSE <<>>
+        contA == CASE s.cont \in {"ref", "shared", "undec"} -> ("Contents" :> Ref(C1))
                    [] s.cont = "arr1" -> ("Contents" :> ArrO(<<Ref(C1)>>))
                    [] s.cont = "arr2" -> ("Contents" :> ArrO(<<Ref(C1), Ref(C2)>>))
                    [] s.cont = "dup" -> ("Contents" :> ArrO(<<Ref(C1), Ref(C1)>>))
@@ -80,29 +97,19 @@ StartDoc(s) ==
                       [] s.tree = "AmB" -> <<PgA, Mid>> [] OTHER -> <<Mid, PgC>>
         midKids == IF s.tree = "AmB" THEN <<PgB>> ELSE <<PgA, PgB>>
         nPages == CASE s.tree = "A" -> 1 [] s.tree = "mABC" -> 3 [] OTHER -> 2
-        ids == {Cat, Root, PgA, Info}
-               \cup (IF s.cont \in {"ref", "arr1", "arr2", "dup", "refarr"} THEN {C1} ELSE {})
-               \cup (IF s.cont = "arr2" THEN {C2} ELSE {})
-               \cup (IF s.cont = "refarr" THEN {CArr} ELSE {})
-               \cup (IF s.res # "none" THEN {Font} ELSE {})
-               \cup (IF s.res \in {"rootref", "pageref", "rootcat"} THEN {ResObj} ELSE {})
-               \cup (IF s.ann > 0 THEN {Annot} ELSE {})
-               \cup (IF hasMid THEN {Mid} ELSE {})
-               \cup (IF hasB THEN {PgB, CB} ELSE {})
-               \cup (IF hasC THEN {PgC, CC} ELSE {})
-               \cup (IF s.img THEN {Img, Mask} ELSE {})
         obj(id) ==
             CASE id = Cat   -> DictO((IF s.img THEN ("Img" :> Ref(Img)) ELSE <<>>) @@ [Type |-> NameO("Catalog"), Pages |-> Ref(Root)])
               [] id = Root  -> pagesNode(rootKids, nPages, rootRes)
               [] id = Mid   -> DictO([Type |-> NameO("Pages"), Parent |-> Ref(Root),
                                       Kids |-> ArrO([i \in 1..Len(midKids) |-> Ref(midKids[i])]), Count |-> IntO(Len(midKids))])
               [] id = PgA   -> page(PgA, pageRes @@ contA @@ annA)
-              [] id = PgB   -> page(PgB, ("Contents" :> Ref(CB)))
+              [] id = PgB   -> page(PgB, pageResB @@ ("Contents" :> Ref(IF s.cont = "shared" THEN C1 ELSE CB)))
               [] id = PgC   -> page(PgC, ("Contents" :> Ref(CC)))
-              [] id = C1    -> StreamO(<<>>, <<65>>, FALSE)
-              [] id = C2    -> StreamO(<<>>, <<97>>, FALSE)
-              [] id = CB    -> StreamO(<<>>, <<66>>, FALSE)
-              [] id = CC    -> StreamO(<<>>, <<67>>, FALSE)
+              \* content streams: one operation per line ("A\n" ...); "BI\n" does not decode
+              [] id = C1    -> StreamO(<<>>, IF s.cont = "undec" THEN <<66, 73, 10>> ELSE <<65, 10>>, FALSE)
+              [] id = C2    -> StreamO(<<>>, <<97, 10>>, FALSE)
+              [] id = CB    -> StreamO(<<>>, <<66, 10>>, FALSE)
+              [] id = CC    -> StreamO(<<>>, <<67, 10>>, FALSE)
               [] id = CArr  -> ArrO(<<Ref(C1)>>)
               [] id = Font  -> DictO([Type |-> NameO("Font")])
               [] id = ResObj -> IF s.res = "rootcat" THEN DictO(("Im0" :> Ref(Font))) ELSE FontRes("F1")
@@ -116,12 +123,16 @@ StartDoc(s) ==
         bms |-> [i \in 1..s.bm |-> PgA]]
 
 DevBoth   == {DevAsIs, DevSeeded}
+DevAll    == {DevAsIs, DevSeeded, DevRepaired}
+DevTwo    == {DevAsIs, DevRepaired}
 DevCode   == {DevAsIs}
 
-BytesQuick    == {<<90>>}
-BytesThorough == {<<90>>, [i \in 1..64 |-> 120]}          \* a long run: the compressible class
-NumsQuick     == {<<1>>, <<2, 1>>}
-NumsThorough  == {<<1>>, <<2>>, <<2, 1>>, <<1, 1>>, <<3>>}
+BytesQuick    == {<<90, 10>>}                                           \* "Z\n"
+\* ... a long run (the compressible class) and content that ends without white space
+BytesThorough == {<<90, 10>>, [i \in 1..64 |-> 120] \o <<10>>, <<90>>}
+\* page-number lists: single, unsorted, the same number twice, out of range and 0, a repeat around another number
+NumsQuick     == {<<1>>, <<2, 1>>, <<1, 1>>}
+NumsThorough  == {<<1>>, <<2>>, <<2, 1>>, <<1, 1>>, <<3>>, <<0, 2>>, <<2, 4, 2>>}
 
 StartsTiny == {St("AB", "dup", "rootref", 2, TRUE, 1)}
 
@@ -135,6 +146,12 @@ StartsQuick ==
 StartsContent  == {St("A", c, "root", 0, FALSE, 0) : c \in {"ref", "arr1", "arr2", "dup", "refarr", "missing"}}
 StartsContent2 == {St("AmB", c, "rootref", 1, FALSE, 0) : c \in {"ref", "arr1", "arr2", "dup", "refarr", "missing"}}
 StartsRes      == {St("AmB", "ref", r, 0, FALSE, 0) : r \in {"none", "root", "rootref", "rootcat", "page", "pageref", "both"}}
+\* the calls of parser_aux.rs: Contents shapes (also shared / not decodable) x Resources placements (also a
+\* name the call is going to pick / a Resources object shared by two pages)
+StartsIns      == {St("AB", c, "rootx", 0, FALSE, 0) : c \in {"ref", "arr2", "refarr", "missing", "shared", "undec"}}
+                  \cup {St("AB", c, "shared", 0, FALSE, 0) : c \in {"ref", "shared"}}
+StartsIns2     == {St("AB", c, r, 0, FALSE, 0) : c \in {"ref", "arr1", "arr2", "dup", "refarr", "missing", "shared", "undec"},
+                                                 r \in {"none", "rootref", "rootcat", "rootx", "shared", "both"}}
 StartsObj1     == {St("AB", "dup", "rootref", 2, TRUE, 1)}
 StartsObj      == {St("AB", "dup", "rootref", 2, TRUE, 1), St("A", "arr2", "none", 1, FALSE, 1)}
 
@@ -152,6 +169,7 @@ MCNewObjs(d) ==
 
 OpsContent == {"AddPageContents", "ChangePageContent", "ChangeContentStream", "DeleteObject", "DeletePages", "Compress", "Decompress"}
 OpsRes     == {"GetOrCreateResources", "AddXObject", "AddGraphicsState", "DeleteObject", "DeletePages", "Prune"}
+OpsIns     == {"AddToPageContent", "InsertImage", "InsertFormObject", "ChangePageContent"}
 OpsObj     == {"NewObjectId", "AddObject", "Replace", "DeleteObject", "RemoveAnnot", "Prune", "Renumber", "BuildOutline", "Save", "SaveLoad"}
 
 NoCall == Call("none")
@@ -161,7 +179,7 @@ Init ==
     /\ dev \in Devs
     /\ doc = StartDoc(start)
     /\ aux = Aux(doc)
-    /\ gh = GhostOf(aux)
+    /\ gh = GhostOf(aux, [q \in RangeOf(aux.pp) |-> DecodeM(IF dev.boundary THEN PlainContent(doc.objs, q) ELSE aux.content[q])])
     /\ n = 0 /\ fails = {} /\ hist = <<>> /\ done = FALSE /\ pend = NoCall
 
 JsonOfDoc(d) ==
@@ -177,7 +195,7 @@ EmitPick == atoi(IOEnv.C11_PICK) % EmitMod
 ReplayLine ==
     LET d0 == StartDoc(start)
         A0 == Aux(d0)
-    IN <<"REPLAY", ToJson([start |-> start, asis |-> dev.asis, doc |-> JsonOfDoc(d0),
+    IN <<"REPLAY", ToJson([start |-> start, asis |-> dev.asis, mode |-> dev.mode, doc |-> JsonOfDoc(d0),
                            content |-> [i \in 1..Len(A0.pp) |-> <<A0.pp[i], A0.content[A0.pp[i]]>>],
                            calls |-> hist, final |-> JsonOfDoc(doc)])>>
 
@@ -212,12 +230,16 @@ GetOrCreateResourcesS == Idle /\ GetOrCreateResources /\ Keep
 AddXObjectS           == Idle /\ AddXObject /\ Keep
 AddGraphicsStateS     == Idle /\ AddGraphicsState /\ Keep
 BuildOutlineS         == Idle /\ BuildOutline /\ Keep
+AddToPageContentS     == Idle /\ AddToPageContent /\ Keep
+InsertImageS          == Idle /\ InsertImage /\ Keep
+InsertFormObjectS     == Idle /\ InsertFormObject /\ Keep
 SaveS                 == Idle /\ Save /\ Keep
 SaveLoadS             == Idle /\ SaveLoad /\ Keep
 
 Next == NewObjectIdS \/ AddObjectS \/ ReplaceS \/ DeleteObjectS \/ RemoveAnnotS \/ PruneS \/ DeletePagesS \/ RenumberS
         \/ CompressS \/ DecompressS \/ AddPageContentsS \/ ChangePageContentS \/ ChangeContentStreamS
-        \/ GetOrCreateResourcesS \/ AddXObjectS \/ AddGraphicsStateS \/ BuildOutlineS \/ SaveS \/ SaveLoadS \/ Finish
+        \/ GetOrCreateResourcesS \/ AddXObjectS \/ AddGraphicsStateS \/ BuildOutlineS \/ SaveS \/ SaveLoadS
+        \/ AddToPageContentS \/ InsertImageS \/ InsertFormObjectS \/ Finish
 
 Spec == Init /\ [][Next]_vars
 
@@ -240,10 +262,12 @@ View == <<dev, doc, gh, n, fails, start, done, pend>>
 -----------------------------------------------------------------------------
 \* As the code is, the only violations are the listed findings (none); with the repaired defects seeded back, the
 \* only violations are the five former findings.
-Refines == Violations(fails) \subseteq (IF dev.asis THEN Allowed ELSE FormerFindings)
+Refines == Violations(fails) \subseteq (CASE dev.mode = "asis" -> Allowed
+                                          [] dev.mode = "seeded" -> Allowed \cup FormerFindings
+                                          [] OTHER -> {})
 
 StartOk == n = 0 => JudgeState(doc, aux, gh.content) = {} /\ aux.sound
 
 \* aux and the ghost content are what the document shows (content is re-synchronised by Judge)
-GhostSync == aux = Aux(doc) /\ gh.content = aux.content
+GhostSync == aux = Aux(doc) /\ gh.content = aux.content /\ gh.ops = [q \in RangeOf(aux.pp) |-> DecodeM(IF dev.boundary THEN PlainContent(doc.objs, q) ELSE aux.content[q])]
 =============================================================================
